@@ -25,6 +25,8 @@
 //	V in=.. iv=.. or=..       what the environment drives before the tick
 //	X …                       all Internal_* registers and flags, external outputs, every processor
 //	SS o0=v,v,..;o1=..        per external output the values the environment took delivery of
+//	DL op:d,.. / SD …         (hdl, half of the machines) the same run on a second VM with simulated
+//	                          opcode latencies (VM.SimDelayMap): its delivered streams
 //
 // Usage: c02 net|sim|hdl <graphs> [<ticks>]   |   c02 replaynet|replaysim|replayhdl <file>
 package main
@@ -85,6 +87,13 @@ type envSpec struct {
 	noise  bool       // sim mode: not an automaton but random flags (tie of the step function only)
 }
 
+// opDelay: the simulator idles `d` ticks after every retired instruction with this opcode
+// (simbox.SimDelays with the single-valued distribution {d: 1.0}: deterministic)
+type opDelay struct {
+	op string
+	d  int
+}
+
 type caseSpec struct {
 	rsize int
 	procs []procSpec
@@ -93,6 +102,7 @@ type caseSpec struct {
 	ticks int
 	stims []stim // replay: explicit stimulus
 	hasE  bool   // replay: an E line was given
+	delays []opDelay // simulated opcode latencies of the second simulator run (hdl mode)
 }
 
 // ---------------------------------------------------------------------------------- building
@@ -295,6 +305,7 @@ func genCase(r *common.Rng, ticks int, full bool) *caseSpec {
 		sinks[i], sinks[j] = sinks[j], sinks[i]
 	}
 	cycles := r.Chance(1, 6)     // backward bonds and self loops (mostly deadlocks) only in some machines
+	fanny := r.Chance(1, 3)      // prefer processor outputs that already have a consumer (fan-out to processors)
 	usedIn := make([][]int, np)  // connected inputs of each processor
 	usedOut := make([][]int, np) // connected outputs
 	markOut := map[string]bool{}
@@ -325,6 +336,9 @@ func genCase(r *common.Rng, ticks int, full bool) *caseSpec {
 			}
 			if w[i] > 0 && d.fan == 0 {
 				w[i] *= 3 // outputs nobody listens to block their writer
+			}
+			if fanny && w[i] > 0 && d.proc >= 0 && s.proc >= 0 && d.fan >= 1 {
+				w[i] *= 10
 			}
 		}
 		t := 0
@@ -377,6 +391,26 @@ func genCase(r *common.Rng, ticks int, full bool) *caseSpec {
 	}
 	// environment
 	c.env.clocks = 3 * ticks / 2
+	// simulated opcode latencies for a second run of the simulator (two thirds of the machines, all
+	// those built with fan-out to several processors): the
+	// property holds "regardless of how many clock cycles either takes"
+	if fanny || r.Chance(1, 2) {
+		pool := []string{"inc", "add", "cpy", "nop", "j", "i2rw", "r2owa", "rset", "dec", "mult", "clr"}
+		n := 1 + r.Intn(3)
+		seen := map[string]bool{}
+		for k := 0; k < n; k++ {
+			op := pool[pick(r, []int{5, 3, 3, 3, 3, 5, 4, 1, 1, 1, 1})]
+			if seen[op] {
+				continue
+			}
+			seen[op] = true
+			d := 1 + r.Intn(12)
+			if fanny && d < 5 {
+				d += 6 // long enough for a sibling consumer to finish its transfer meanwhile
+			}
+			c.delays = append(c.delays, opDelay{op, d})
+		}
+	}
 	mask := ^uint64(0)
 	if c.rsize < 64 {
 		mask = (uint64(1) << uint(c.rsize)) - 1
@@ -1081,6 +1115,9 @@ func runCase(r *common.Rng, c *caseSpec, mode string) {
 			}
 			out.Line("SS %s", strings.Join(ss, ";"))
 		}
+		if mode == "hdl" && len(c.delays) > 0 && !c.env.noise && c.stims == nil {
+			runDelayed(c, bm, n)
+		}
 		return ""
 	})
 	if res != "" {
@@ -1088,6 +1125,57 @@ func runCase(r *common.Rng, c *caseSpec, mode string) {
 	}
 	out.Line("Z")
 	out.Flush()
+}
+
+// runDelayed: the same machine and environment on a second bondmachine.VM whose processors idle
+// after the opcodes named in c.delays (VM.SimDelayMap, what -sim-delays-file sets); 4 x the ticks
+// since it is slower.  Prints  DL op:d,...  and  SD <streams>  (no per-tick dump: the models
+// have no DelayCounter; only the delivered streams are compared).
+func runDelayed(c *caseSpec, bm *bondmachine.Bondmachine, ticks int) {
+	parts := make([]string, len(c.delays))
+	sd := simbox.NewSimDelays()
+	for i, d := range c.delays {
+		parts[i] = d.op + ":" + strconv.Itoa(d.d)
+		sd.OpcodeDelays[d.op] = simbox.DelayDistribution{int32(d.d): 1.0}
+	}
+	out.Line("DL %s", strings.Join(parts, ","))
+	vm := new(bondmachine.VM)
+	vm.Bmach = bm
+	vm.SimDelayMap = sd
+	if err := vm.Init(); err != nil {
+		out.Line("SD err")
+		return
+	}
+	if err := vm.Launch_processors(new(simbox.Simbox)); err != nil {
+		out.Line("SD err")
+		return
+	}
+	defer vm.Shutdown()
+	env := newEnv(&c.env, bm.Inputs, bm.Outputs)
+	for t := 0; t < 4*ticks; t++ {
+		ov := make([]uint64, bm.Outputs)
+		for i := range ov {
+			ov[i] = untyped(vm.Outputs_regs[i])
+		}
+		env.step(ov, vm.OutputsValid, vm.InputsRecv)
+		cur := env.drive
+		for i := 0; i < bm.Inputs && i < len(cur.in); i++ {
+			vm.Inputs_regs[i] = typed(c.rsize, cur.in[i])
+			vm.InputsValid[i] = cur.iv[i]
+		}
+		for i := 0; i < bm.Outputs && i < len(cur.or); i++ {
+			vm.OutputsRecv[i] = cur.or[i]
+		}
+		if _, err := vm.Step(nil); err != nil {
+			out.Line("SD err")
+			return
+		}
+	}
+	ss := make([]string, len(env.streams))
+	for i, s := range env.streams {
+		ss[i] = joinN(s)
+	}
+	out.Line("SD %s", strings.Join(ss, ";"))
 }
 
 // ---------------------------------------------------------------------------------- replay
@@ -1207,6 +1295,15 @@ func replay(path string, mode string) {
 		case "K":
 			if c != nil {
 				c.ticks = atoi(fs[1])
+			}
+		case "DL":
+			if c != nil && len(fs) > 1 {
+				for _, kv := range strings.Split(fs[1], ",") {
+					x := strings.SplitN(kv, ":", 2)
+					if len(x) == 2 {
+						c.delays = append(c.delays, opDelay{x[0], atoi(x[1])})
+					}
+				}
 			}
 		case "V":
 			if c != nil {
